@@ -277,7 +277,7 @@ def run_edits(ctx, case):
 
     spec, hints = case["spec"], case.get("hints")
     if hints:
-        hints = dict(hints, seq="list")     # this sub-check edits the block's containers in place: they have to be lists
+        hints = dict(hints, seq="list", readonly=False)     # this sub-check edits the block's containers and arrays in place: lists, writable arrays
     t = spec["t"]
     ok, blk = ctx.must(lambda: specs.build(spec, hints), f"{t}/build", f"constructing a valid {t} block")
     done = 0
